@@ -136,11 +136,12 @@ def gen_history(rng, hdir, idx):
         t = "t%d_%d" % (idx, tcount[0])
         tcount[0] += 1
         cols = ["id"] + ["c%d" % i for i in range(rng.randint(1, 3))]
-        tables[t] = {"cols": list(cols), "ix": set(), "n": len(cols)}
+        tables[t] = {"cols": list(cols), "ix": set(), "n": len(cols), "born": version_box[0]}
         return {"type": "create_table", "table": t, "constraints": [],
                 "columns": [{"name": "id", "type": "integer", "nullable": False, "primary_key": True}] +
                            [{"name": c, "type": rng.choice(["text", "integer", {"kind": "varchar", "length": 40}]), "nullable": True} for c in cols[1:]]}
     rawtables = []
+    version_box = [0]
 
     def add_col(t):
         info = tables[t]
@@ -151,7 +152,15 @@ def gen_history(rng, hdir, idx):
                 "column": {"name": c, "type": rng.choice(["text", "integer", "boolean"]), "nullable": True}}
     for _ in range(n_migs):
         version += rng.choice([1, 1, 1, 2, 5])
+        version_box[0] = version
         acts = []
+        if tables and rng.random() < 0.25:
+            # a migration that issues no statement on SQLite: no action at all, or column comments only
+            t = rng.choice(sorted(tables))
+            if rng.random() < 0.5:
+                acts = [{"type": "modify_column_comment", "table": t, "column": tables[t]["cols"][-1], "new_comment": "generated comment %d" % version}]
+            mig_list.append({"version": version, "id": uid(version), "comment": "generated (no SQLite statement)", "actions": acts})
+            continue
         for _ in range(rng.randint(1, 3)):
             choice = rng.random()
             if not tables or choice < 0.22:
@@ -175,7 +184,7 @@ def gen_history(rng, hdir, idx):
                     rawtables.remove(rt)
                     acts.append({"type": "delete_table", "table": rt})
                 acts.append(add_col(t))
-            elif choice < 0.52 and not info.get("view") and len(info["cols"]) > 1:
+            elif choice < 0.52 and not info.get("view") and len(info["cols"]) > 1 and info["born"] < version:
                 # SQLite rebuild: its SQL is generated from the baseline threaded through ALL earlier actions
                 free = [c for c in info["cols"][1:] if c not in info["ix"]]
                 if free:
@@ -205,10 +214,6 @@ def gen_history(rng, hdir, idx):
                 nc = c + "r"
                 info["cols"][info["cols"].index(c)] = nc
                 acts.append({"type": "rename_column", "table": t, "from": c, "to": nc})
-        if tables and rng.random() < 0.25:
-            # a migration that issues no statement on SQLite: no action at all, or column comments only
-            t = rng.choice(sorted(tables))
-            acts = [] if rng.random() < 0.5 else [{"type": "modify_column_comment", "table": t, "column": tables[t]["cols"][-1], "new_comment": "generated comment %d" % version}]
         mig_list.append({"version": version, "id": uid(version), "comment": "generated", "actions": acts})
     # views reference unprefixed table names: generated histories carry no prefix
     shutil.rmtree(hdir, ignore_errors=True)
@@ -220,6 +225,43 @@ def gen_history(rng, hdir, idx):
         json.dump(m, open(os.path.join(hdir, "migrations", "%04d_gen.json" % m["version"]), "w"), indent=1)
 
 
+def gen_script_history(rng, hdir, idx, bare):
+    """plain migrations interleaved with raw_sql scripts that carry their own transaction control"""
+    wrappers = [("BEGIN; %s; COMMIT;", False), ("BEGIN; %s; END;", False), ("BEGIN TRANSACTION;\n%s;\nEND TRANSACTION;", False),
+                ("begin immediate; %s; commit", False), ("SAVEPOINT s%d; %%s; RELEASE s%d" % (idx, idx), False)]
+    enders = [("%s; COMMIT;", True), ("%s; END", True), ("%s; end transaction;", True)]
+    migs, version, tcount = [], 0, 0
+    t0 = "s%d_base" % idx
+    plan = ["plain"] + [rng.choice(["plain", "script", "script"]) for _ in range(rng.randint(2, 4))]
+    if "script" not in plan:
+        plan[-1] = "script"
+    cols = 0
+    for step in plan:
+        version += rng.choice([1, 1, 2])
+        if step == "plain":
+            if not migs:
+                acts = [{"type": "create_table", "table": t0, "constraints": [],
+                         "columns": [{"name": "id", "type": "integer", "nullable": False, "primary_key": True}]}]
+            else:
+                cols += 1
+                acts = [{"type": "add_column", "table": t0, "fill_with": None, "column": {"name": "c%d" % cols, "type": "text", "nullable": True}}]
+        else:
+            tcount += 1
+            body = "CREATE TABLE s%d_t%d (x INTEGER)" % (idx, tcount)
+            if rng.random() < 0.4:
+                body += "; INSERT INTO s%d_t%d VALUES (%d)" % (idx, tcount, version)
+            tmpl, _ = rng.choice(enders if (bare and rng.random() < 0.6) else wrappers)
+            acts = [{"type": "raw_sql", "sql": tmpl % body}]
+        migs.append({"version": version, "id": "0193%04x-0000-7000-8000-%012x" % (idx, version), "comment": "generated " + step, "actions": acts})
+    shutil.rmtree(hdir, ignore_errors=True)
+    os.makedirs(os.path.join(hdir, "migrations"))
+    os.makedirs(os.path.join(hdir, "models"))
+    json.dump({"modelsDir": "models", "migrationsDir": "migrations", "tableNamingCase": "snake", "columnNamingCase": "snake",
+               "modelFormat": "json"}, open(os.path.join(hdir, "vespertide.json"), "w"))
+    for m in migs:
+        json.dump(m, open(os.path.join(hdir, "migrations", "%04d_gen.json" % m["version"]), "w"), indent=1)
+
+
 def history_dirs(tier, seed):
     dirs = sorted(d for d in glob.glob(os.path.join(CORPUS, "*")) if os.path.isdir(os.path.join(d, "migrations")))
     if tier == "thorough":
@@ -228,6 +270,10 @@ def history_dirs(tier, seed):
         for i in range(8):
             hd = os.path.join(gd, "g%02d" % i)
             gen_history(rng, hd, i)
+            dirs.append(hd)
+        for i in range(3):
+            hd = os.path.join(gd, "gs%02d" % i)
+            gen_script_history(rng, hd, 20 + i, bare=(i == 2))
             dirs.append(hd)
     return dirs
 
@@ -304,6 +350,87 @@ def fault_runs(h, tier, rng, ncalls):
                 runs.append(seq_run("f2_v0_k%d_j%d" % (k, j), 0, {"k": k, "vt": "legacy" if k else "absent"}, faults=((1, j), ()),
                                     family="c10", kind="fault", k=k, j=j))
     return runs
+
+
+# ---- statements with their own transaction control (mirror of coq/mig/Model/Script.v: split at `;`, leading keyword)
+def _kw(k, u):
+    return u == k or u.startswith(k + " ")
+
+
+def script_ops(stmt):
+    ops = []
+    for p in [x.strip(" \t\n\r") for x in stmt.split(";")]:
+        if not p:
+            continue
+        u = p.upper()
+        if _kw("BEGIN", u):
+            ops.append(("begin", p))
+        elif _kw("COMMIT", u) or _kw("END", u):
+            ops.append(("end", p))
+        elif u.startswith("ROLLBACK TO"):
+            ops.append(("piece", p))
+        elif _kw("ROLLBACK", u):
+            ops.append(("rollback", p))
+        elif _kw("SAVEPOINT", u):
+            ops.append(("savepoint", p))
+        elif _kw("RELEASE", u):
+            ops.append(("release", p))
+        else:
+            ops.append(("piece", p))
+    return ops
+
+
+def has_ctl(stmt):
+    return any(k != "piece" for k, _ in script_ops(stmt))
+
+
+def breaks_out(stmt):
+    """mirror of Script.breaks_out: a COMMIT / END / ROLLBACK not preceded in the same script by its BEGIN"""
+    opened = False
+    for k, _ in script_ops(stmt):
+        if k == "begin":
+            opened = True
+        elif k in ("end", "rollback"):
+            if not opened:
+                return True
+            opened = False
+    return False
+
+
+def units_of(stmt):
+    """what the model appends to the committed statement list for one statement"""
+    return [p for k, p in script_ops(stmt) if k == "piece"] if has_ctl(stmt) else [stmt]
+
+
+def source_raw(h):
+    return [a["sql"] for m in h["migrations"] for a in m.get("actions", []) if a.get("type") == "raw_sql"]
+
+
+def script_runs(h, tier, migs, ncalls=None):
+    """histories whose raw_sql scripts carry transaction control: every start version, both code shapes, two
+    consecutive starts; then a fault at every call of the first start"""
+    n = len(migs)
+    units = [[u for st in sqlite_stmts(m) for u in units_of(st)] for m in migs]
+    prefix = lambda k: [u for us in units[:k] for u in us]
+    # a script that ends the migrator's transaction leaves half-applied states behind; a second start on such a
+    # state trips over its own leftovers (natural duplicate-object errors, not modelled): one start only there
+    second = [] if any(breaks_out(x) for x in source_raw(h)) else [{"faults": []}]
+    runs = []
+    for v in (0, 1):
+        for k in range(n + 1):
+            init = {"k": k, "vt": "absent" if k == 0 else "current", "stmts": prefix(k)}
+            if ncalls is None:
+                runs.append({"name": "s_v%d_k%d" % (v, k), "variant": v, "backend": "sqlite", "mode": "sequential", "init": init,
+                             "instances": [{"faults": []}] + second, "schedule": [],
+                             "tags": {"family": "c10", "kind": "script", "k": k, "ncalls_key": "%d:%d" % (v, k)}})
+            elif v == 0 or tier == "thorough":
+                for j in range(ncalls.get("%d:%d" % (v, k), 0)):
+                    cls, txt = ERR_VALUES[(j + k) % len(ERR_VALUES)]
+                    runs.append({"name": "sf_v%d_k%d_j%d" % (v, k, j), "variant": v, "backend": "sqlite", "mode": "sequential", "init": init,
+                                 "instances": [{"faults": [j], "fault_class": cls, "fault_text": txt}] + second, "schedule": [],
+                                 "tags": {"family": "c10", "kind": "script", "k": k, "j": j, "error_value": "%s: %s" % (cls, txt[:60])}})
+    keys = [prefix(n)[:i] for i in range(len(prefix(n)) + 1)]
+    return runs, keys
 
 
 def persistent_runs(h, tier, out1):
@@ -533,10 +660,10 @@ def g_case(out, run, applied, crash=None, model_faults=None):
     return ("mkCase %s ms %s\n   %s %s %s %s %s refc\n   %s\n   %s\n   %s" % (
         g_opts(out, run), g_db(run["before"], applied), faults, glist("%d%%nat" % p for p in run["schedule"]),
         "true" if run.get("sequential") else "false", "true" if run.get("dry") else "false",
-        "None" if crash is None else "(Some %d%%nat)" % crash, insts, glist(map(g_obs, run.get("mids", []))), g_obs(run["after"])))
+        "None" if crash is None else "(Some %d%%nat)" % crash, insts, glist(map(g_obs, run.get("mids", []))), g_obs(run["after"]))) + "\n   srcraw"
 
 
-def write_shard(path, out, cases, extra_refcats=()):
+def write_shard(path, out, cases, extra_refcats=(), src_raw=()):
     """cases: list of Gallina mkCase terms sharing `ms` and `refc`"""
     refs = [(r["stmts"], r["catalog"] if isinstance(r["catalog"], str) else "ERROR") for r in out["refcats"] if "stmts" in r]
     for st, cat in extra_refcats:
@@ -545,6 +672,7 @@ def write_shard(path, out, cases, extra_refcats=()):
     refc = glist("(%s, %s)" % (glist(map(gs, st)), gs(cat)) for st, cat in refs)
     body = ["From VV.MIG Require Import Corr.", "Definition ms : list mig := %s." % g_migs(out),
             "Definition refc : list (list string * string) := %s." % refc,
+            "Definition srcraw : list string := %s." % glist(map(gs, src_raw)),
             "Definition cases : list mig_case := [", ";\n".join(cases), "].",
             "Definition bad := mismatches cases.", "Eval vm_compute in bad.",
             "Eval vm_compute in map flag_code cases."]
@@ -592,6 +720,9 @@ def run_history(hdir, tier, seed, work, built):
     wd = os.path.join(work, h["name"])
     shutil.rmtree(wd, ignore_errors=True)
     os.makedirs(wd)
+    res["src_raw"] = source_raw(h)
+    if any(has_ctl(x) for x in res["src_raw"]):
+        return run_scripted_history(h, hdir, tier, binp, wd, res)
     # the compiled-in history is a copy of hdir (the cache key is its content hash): re-derive from hdir
     out1, rc, err = run_bin(binp, {"work": wd, "project": hdir, "runs": base_runs(h, tier)}, h["name"] + ".1")
     if out1 is None:
@@ -630,6 +761,40 @@ def run_history(hdir, tier, seed, work, built):
     res["out"] = {"prefix": out1["prefix"], "migs": out1["migs"], "refcats": out1["refcats"]}
     res["runs"] = runs
     res["crashes"] = crashes
+    return res
+
+
+def run_scripted_history(h, hdir, tier, binp, wd, res):
+    """raw_sql scripts with BEGIN / COMMIT / END / ROLLBACK / SAVEPOINT: sequential families only"""
+    res["scripted"] = True
+    o0, rc, err = run_bin(binp, {"work": wd, "project": hdir, "no_refcats": True, "runs": []}, h["name"] + ".0")
+    if o0 is None:
+        res["error"] = {"stage": "run-derive", "rc": rc, "log": err}
+        return res
+    runs1, keys = script_runs(h, tier, o0["migs"])
+    out1, rc, err = run_bin(binp, {"work": wd, "project": hdir, "runs": runs1, "refcat_keys": keys}, h["name"] + ".1")
+    if out1 is None:
+        res["error"] = {"stage": "run-base", "rc": rc, "log": err}
+        return res
+    ncalls = {}
+    for r in out1["runs"]:
+        if "harness_error" in r:
+            res["error"] = {"stage": "harness", "log": r["harness_error"], "run": r.get("name")}
+            return res
+        ncalls[r["tags"]["ncalls_key"]] = len(r["instances"][0]["log"])
+    runs2, _ = script_runs(h, tier, o0["migs"], ncalls)
+    out2, rc, err = run_bin(binp, {"work": wd, "project": hdir, "no_refcats": True, "runs": runs2}, h["name"] + ".2")
+    if out2 is None:
+        res["error"] = {"stage": "run-faults", "rc": rc, "log": err}
+        return res
+    for r in out2["runs"]:
+        if "harness_error" in r:
+            res["error"] = {"stage": "harness", "log": r["harness_error"], "run": r.get("name")}
+            return res
+    res["out"] = {"prefix": out1["prefix"], "migs": out1["migs"], "refcats": out1["refcats"] + out1.get("refcats_extra", []),
+                  "full_catalog": (out1.get("refcats_extra") or [{}])[-1].get("catalog")}
+    res["runs"] = out1["runs"] + out2["runs"]
+    res["crashes"] = []
     return res
 
 
@@ -712,7 +877,7 @@ def run_mig_locked(tier, seed, key, d, done, t0):
         for a in range(0, len(cs), per_shard):
             part = cs[a:a + per_shard]
             write_shard(os.path.join(d, "cases_mig_%03d.v" % si), hr["out"], [c for c, _ in part],
-                        [tuple(ds["refcat"]) for _, ds in part if ds.get("refcat")])
+                        [tuple(ds["refcat"]) for _, ds in part if ds.get("refcat")], hr.get("src_raw") or [])
             for li, (_, ds) in enumerate(part):
                 ds.update({"shard": si, "local": li, "gidx": len(descr)})
                 descr.append(ds)
@@ -735,7 +900,8 @@ def run_mig_locked(tier, seed, key, d, done, t0):
         code = fl[ds["local"]] if ds["local"] < len(fl) else None
         ds["hyp"] = None if code is None else {"ascending": bool(code & 1), "versions_u32": bool(code & 2), "rows_u32": bool(code & 4),
                                                "at_version": bool(code & 8), "id_conflict": bool(code & 16),
-                                               "versions_lt_2_31": bool(code & 32), "versions_distinct": bool(code & 64)}
+                                               "versions_lt_2_31": bool(code & 32), "versions_distinct": bool(code & 64),
+                                               "breaks_out": bool(code & 128), "has_ctl": bool(code & 256)}
     res = {"dir": d, "histories": hist, "cases": descr, "shard_errors": errors,
            "wall_s": round(time.time() - t0, 1), "cached": False}
     json.dump(res, open(done, "w"))
@@ -895,6 +1061,33 @@ def oracle_persistent(h, run):
     return {"ok": not fails, "fails": fails}
 
 
+def oracle_script(h, run):
+    """statements with their own transaction control: whatever they do, a start that returns Err — with or
+    without an injected fault — leaves the database as it was (up to the bookkeeping table), and a start that
+    returns Ok has applied and recorded everything"""
+    fails = []
+    migs = h["out"]["migs"]
+    before = run["before"]
+    for n, inst in enumerate(run["instances"]):
+        after = run["mids"][n] if n < len(run.get("mids", [])) else run["after"]
+        r = inst["result"]
+        injected = any(e.get("injected") for e in inst["log"])
+        if not r or r["kind"] not in ("ok", "database_error"):
+            fails.append({"clause": "ok-or-database-error", "start": n, "got": r})
+        elif r["kind"] == "database_error":
+            if not same_but_bookkeeping(before, after):
+                fails.append({"clause": "a-start-that-returns-err-changes-nothing", "start": n, "fault_injected": injected,
+                              "last_calls": [(e["k"], e["ok"], e["sql"][:70], (e.get("err") or "")[-60:]) for e in inst["log"]][-3:],
+                              "rows_before": before["rows"], "rows_after": after["rows"], "catalog_equal": before["catalog"] == after["catalog"]})
+        else:
+            maxv = max([x[0] for x in before["rows"]], default=0)
+            rows = [list(x) for x in before["rows"]] + [[m["version"], m["id"]] for m in migs if m["version"] > maxv]
+            if after["rows"] != rows or (h["out"].get("full_catalog") is not None and after["catalog"] != h["out"]["full_catalog"]):
+                fails.append({"clause": "a-start-that-returns-ok-is-complete", "start": n, "rows": after["rows"], "expected_rows": rows})
+        before = after
+    return {"ok": not fails, "fails": fails}
+
+
 def oracle_crash(h, c):
     fails = []
     before, look, rerun = c["prep"]["before"], c["look"]["after"], c["rerun"]
@@ -952,12 +1145,13 @@ def known_entries(prop):
 
 # classifier name (Gallina boolean, evaluated inside Coq by `flag_code` in every shard) -> decoded flag
 CLASSIFIERS = {"id_conflict": lambda hyp: bool(hyp and hyp.get("id_conflict")),
-               "versions_beyond_i32": lambda hyp: bool(hyp) and not hyp.get("versions_lt_2_31")}
+               "versions_beyond_i32": lambda hyp: bool(hyp) and not hyp.get("versions_lt_2_31"),
+               "raw_script_ends_transaction": lambda hyp: bool(hyp and hyp.get("breaks_out"))}
 
 FAMILY = {"C09": ("c09",), "C10": ("c10",), "C11": ("c11",)}
 RULES = {
     "C09": "every history (corpus/mig + generated in thorough) x every start version k in 0..n x 4 option sets (plain / verbose / version_table / both), 2 consecutive starts each; legacy bookkeeping layout; fake PostgreSQL/MySQL backends; pre-seeded foreign ids and out-of-range versions. non-trivial = distinct (history, options, prepared database) with >= 1 pending migration",
-    "C10": "fault injected at connection call j (quick: every j for the fresh database of each history + 2 random j per (k, options); thorough: every j everywhere), each followed by a clean re-run; process killed (abort) before call j and database re-opened by a new process; error values of seven classes/texts for the injected failure (neutral, three lock-contention texts, two duplicate-object texts, a connection error), rotated over the call-indexed faults; persistent faults keyed by statement (every execution of one pending statement fails) with each error value, then lifted and the run repeated; natural engine refusals: an object (table / index / column) that a pending statement creates is created by hand before the run, at every position of the pending list where it is the first statement touching that object, for every start version k and both code shapes, then the obstacle is removed and the run repeated. non-trivial = distinct (history, options, k, j) where the fault/kill hits inside the transaction (j >= 3)",
+    "C10": "fault injected at connection call j (quick: every j for the fresh database of each history + 2 random j per (k, options); thorough: every j everywhere), each followed by a clean re-run; process killed (abort) before call j and database re-opened by a new process; error values of seven classes/texts for the injected failure (neutral, three lock-contention texts, two duplicate-object texts, a connection error), rotated over the call-indexed faults; persistent faults keyed by statement (every execution of one pending statement fails) with each error value, then lifted and the run repeated; histories whose raw_sql scripts carry transaction control (BEGIN…COMMIT, BEGIN…END, BEGIN TRANSACTION…END TRANSACTION, bare COMMIT / END / ROLLBACK, SAVEPOINT…RELEASE; first / middle / last pending migration by start version; both code shapes; a fault at every call); natural engine refusals: an object (table / index / column) that a pending statement creates is created by hand before the run, at every position of the pending list where it is the first statement touching that object, for every start version k and both code shapes, then the obstacle is removed and the run repeated. non-trivial = distinct (history, options, k, j) where the fault/kill hits inside the transaction (j >= 3)",
     "C11": "2 or 3 instances on one SQLite file (busy_timeout 0) stepped by the scheduler, then one late retry instance; systematic + seeded random schedules (thorough: every interleaving of the transaction parts for <= 7 calls, every interleaving of the parts outside the transaction). non-trivial = distinct (history, options, k, effective schedule) in which >= 2 instances issued a call while another was unfinished",
 }
 
@@ -1039,7 +1233,7 @@ def mig_check(prop, tier, seed, assumptions):
     rejected = []
     for h in res["histories"]:
         if h.get("error"):
-            if h["name"].startswith("g"):
+            if h["name"].startswith("g") and not h["name"].startswith("gs"):
                 rejected.append({"history": h["name"], "stage": h["error"].get("stage")})
             else:
                 rp = vflib.write_replay(prop, "correspondence:K-mig-harness", {"history": h["name"], "error": h["error"], "tier": tier, "seed": seed})
@@ -1075,7 +1269,7 @@ def mig_check(prop, tier, seed, assumptions):
             if ds["tags"].get("j", 0) >= 3:
                 nontriv.add(fp)
         else:
-            o = oracle_persistent(h, run) if kind == "persistent" else oracle_obstacle(h, run) if kind == "obstacle" else {"C09": oracle_c09, "C10": oracle_c10, "C11": oracle_c11}[prop](h, run)
+            o = oracle_script(h, run) if kind == "script" else oracle_persistent(h, run) if kind == "persistent" else oracle_obstacle(h, run) if kind == "obstacle" else {"C09": oracle_c09, "C10": oracle_c10, "C11": oracle_c11}[prop](h, run)
             fp = case_fingerprint(ds, run)
             if nontrivial(prop, ds, run, h):
                 nontriv.add(fp)
@@ -1089,7 +1283,7 @@ def mig_check(prop, tier, seed, assumptions):
     chk.cov["distribution"] = {"kinds": dist, "histories": {h["name"]: {"migrations": h["n_migs"], "build_s": h.get("build_s"), "binary_cached": h.get("build_cached")}
                                                                for h in res["histories"]}, "rejected_generated_histories": rejected,
                                "kmig_wall_s": res.get("wall_s")}
-    hyp_all = sum(1 for ds in mine if ds.get("hyp") and ds["hyp"]["ascending"] and ds["hyp"]["versions_u32"] and ds["hyp"]["at_version"] and not ds["hyp"]["id_conflict"])
+    hyp_all = sum(1 for ds in mine if ds.get("hyp") and ds["hyp"]["ascending"] and ds["hyp"]["versions_u32"] and ds["hyp"]["at_version"] and not ds["hyp"]["id_conflict"] and not ds["hyp"].get("has_ctl"))
     covered, unexplained = {}, []
     for (ds, run, o) in failing:
         hit = None
@@ -1110,7 +1304,7 @@ def mig_check(prop, tier, seed, assumptions):
             chk.known_finding(k["id"], k["what"])
         else:
             chk.notes.append("NOTE stale known finding %s: its witness no longer fails" % k["id"])
-    chk.cov["theorem_coverage"] = {"cases_under_all_hypotheses(ascending, versions_u32, at_version, no id_conflict)": hyp_all, "cases": len(mine),
+    chk.cov["theorem_coverage"] = {"cases_under_all_hypotheses(ascending, versions_u32, at_version, no id_conflict, no transaction control in statements)": hyp_all, "cases": len(mine),
                                    "oracle_failures": len(failing), "classified_known": covered, "unexplained": len(unexplained)}
     for (ds, run, o) in unexplained[:5]:
         hd = history_dir_of(ds["history"], tier, seed)
@@ -1181,6 +1375,8 @@ def mig_replay(prop, path):
             "instances": [dict({"faults": f or []}, **(extra[n] if n < len(extra) else {})) for n, f in enumerate(faults)], "schedule": src.get("schedule") or [], "tags": tags}
     if src.get("between"):
         spec["between"] = src["between"]
+    if tags.get("kind") == "script":
+        spec["init"]["stmts"] = (src.get("init") or {}).get("applied") or []
     if tags.get("family") == "c11":
         spec["late"] = [tags.get("ninst", 2)]
     else:
@@ -1191,7 +1387,8 @@ def mig_replay(prop, path):
         return 1
     hh = {"out": {"migs": out["migs"], "refcats": out["refcats"]}, "versions": h["versions"]}
     run = out["runs"][0]
-    o = oracle_persistent(hh, run) if tags.get("kind") == "persistent" else oracle_obstacle(hh, run) if tags.get("kind") == "obstacle" else {"C09": oracle_c09, "C10": oracle_c10, "C11": oracle_c11}[prop](hh, run)
+    hh["out"]["full_catalog"] = (out.get("refcats_extra") or [{}])[-1].get("catalog")
+    o = oracle_script(hh, run) if tags.get("kind") == "script" else oracle_persistent(hh, run) if tags.get("kind") == "persistent" else oracle_obstacle(hh, run) if tags.get("kind") == "obstacle" else {"C09": oracle_c09, "C10": oracle_c10, "C11": oracle_c11}[prop](hh, run)
     print(json.dumps({"results": [i["result"] for i in run["instances"]], "oracle": o}, indent=1)[:4000])
     if o is not None and not o["ok"]:
         print("VIOLATION property=%s replay=%s" % (prop, path))
